@@ -11,10 +11,11 @@ structure MetaFactsN (ft : Feat) (Γ : Ctx) (ci : ClassInfo) (m : XmlMeta) : Pro
   qne : m.qname ≠ []
   wild : m.wildcards = []
   choices : m.choices = []
-  anyAttrs : m.anyAttributes = []
+  anyAttrs : m.anyAttributes = [] ∨ ∃ av, m.anyAttributes = [av] ∧ mapVarOK ci av = true
   noNilAttr : m.findAttribute xsiNil = none
   wrappers : ∀ ww ∈ m.wrappers, ∃ v ∈ m.elementVars, v.wrapperQName = some ww.1
-  attrs : ∀ var ∈ m.attributeVars, FN.attrVarOK ft m ci var = true
+  attrs : ∀ var ∈ m.attributeVars, FN.attrVarOK ft m ci var = true ∨
+    (m.anyAttributes = [var] ∧ mapVarOK ci var = true)
   attrNodup : (m.attributeVars.map (·.qname)).Nodup
   body : match m.text with
     | none => ∀ var ∈ m.elementVars, FN.elemVarOK ft Γ m ci var = true
@@ -29,14 +30,22 @@ structure MetaFactsN (ft : Feat) (Γ : Ctx) (ci : ClassInfo) (m : XmlMeta) : Pro
 theorem metaFactsN_of {ft : Feat} {Γ : Ctx} {ci : ClassInfo} {m : XmlMeta}
     (h : metaOK ft Γ ci m = true) : MetaFactsN ft Γ ci m := by
   simp only [metaOK, Bool.and_eq_true, decide_eq_true_eq, Bool.not_eq_true', List.isEmpty_iff,
-    List.all_eq_true, List.any_eq_true] at h
+    List.all_eq_true, List.any_eq_true, Bool.or_eq_true] at h
   obtain ⟨⟨⟨⟨⟨⟨⟨⟨⟨⟨⟨⟨⟨⟨⟨⟨h1, _⟩, h3⟩, h4⟩, h5⟩, h6⟩, h6b⟩, h7⟩, h8⟩, h9⟩, h10⟩, h11⟩, h11b⟩, h11c⟩, h12⟩,
     h13⟩, h14⟩ := h
-  refine ⟨h1, ?_, h4, h5, h6, h6b, ?_, h8, h9, ?_, h11, h11b, h11c, h12, h13, ?_⟩
+  refine ⟨h1, ?_, h4, h5, ?_, h6b, ?_, ?_, h9, ?_, h11, h11b, h11c, h12, h13, ?_⟩
   · intro hq; simp [hq] at h3
+  · rcases h6 with h6 | ⟨_, h6⟩
+    · exact Or.inl h6
+    · split at h6
+      · rename_i av hav; exact Or.inr ⟨av, hav, h6⟩
+      · cases h6
   · intro ww hww
     obtain ⟨v, hv, hvw⟩ := h7 ww hww
     exact ⟨v, hv, hvw⟩
+  · intro var hvar
+    have := h8 var hvar
+    simpa [Bool.or_eq_true, Bool.and_eq_true] using this
   · cases ht : m.text with
     | none => simpa [ht] using h10
     | some tv => simpa [ht] using h10
@@ -67,35 +76,93 @@ theorem primTypeOf_some {v : XmlVar} {t : PT} (h : primTypeOf v = some t) :
     · cases h
   · cases h
 
+theorem fieldAgreesN_iff {ci : ClassInfo} {v : XmlVar} : fieldAgreesN ci v = true ↔
+    ∃ f, ci.fields.find? (·.name = v.name) = some f ∧ f.init = v.init ∧
+      defaultAgrees v.default f.default = true := by
+  unfold fieldAgreesN
+  cases hf : ci.fields.find? (·.name = v.name) with
+  | none => simp
+  | some f => simp
+
+theorem fieldAgrees_of_N {ci : ClassInfo} {v : XmlVar} (h : fieldAgreesN ci v = true)
+    (hi : v.init = true) : fieldAgrees ci v = true := by
+  obtain ⟨f, hf, hfi, hd⟩ := fieldAgreesN_iff.1 h
+  exact fieldAgrees_iff.2 ⟨f, hf, by rw [hfi, hi], hd⟩
+
+theorem fixedVal_iff {var : XmlVar} {x : Val} :
+    fixedVal var x = true ↔ ∃ p, x = .prim p ∧ var.default = .val p := by
+  unfold fixedVal
+  constructor
+  · intro h
+    cases x <;> cases hd : var.default <;> simp [hd] at h
+    rename_i p d
+    exact ⟨p, rfl, by rw [h]⟩
+  · rintro ⟨p, rfl, hd⟩
+    simp [hd]
+
 theorem attrFactsN_of {ft : Feat} {e : BEnv} {Γ : Ctx} {m : XmlMeta} {ci : ClassInfo}
-    {fields : List (Str × Val)} {var : XmlVar} (hv : FN.attrVarOK ft m ci var = true)
-    (hx : FN.attrValOK e Γ ci var (look fields var.name) = true)
+    {fields : List (Str × Val)} {var : XmlVar}
+    (hv : FN.attrVarOK ft m ci var = true ∨ (m.anyAttributes = [var] ∧ mapVarOK ci var = true))
+    (hx : FN.attrValOK e Γ m ci var (look fields var.name) = true)
     (hnames : fields.map (·.1) = ci.fields.map (·.name)) : AttrFactsN e Γ m fields var := by
-  simp only [FN.attrVarOK, FN.varBase, Bool.and_eq_true, decide_eq_true_eq, Bool.not_eq_true'] at hv
-  obtain ⟨⟨⟨⟨⟨⟨⟨⟨⟨hA, hB⟩, _⟩, _⟩, _⟩, hfind⟩, hnil⟩, hty⟩, htypes⟩, hfa⟩ := hv
-  have hinit : var.init = true := hB.1.1.1.1.1.1.1.1
-  obtain ⟨f, hf, _, _⟩ := fieldAgrees_iff.1 hfa
-  refine ⟨hA, hinit, hfind, hnil, hty, by rw [hnames]; exact mem_names_of_find hf, ?_⟩
-  unfold FN.attrValOK at hx
-  cases hpt : primTypeOf var with
-  | none => simp [hpt] at hx
-  | some t =>
-    obtain ⟨htp, _⟩ := primTypeOf_some hpt
-    refine ⟨t, htp, ?_⟩
-    simp only [hpt] at hx
-    by_cases htok : var.tokens = true
-    · simp only [htok, if_true] at hx
-      obtain ⟨ys, hys, htoks⟩ := toks_of hx
-      exact Or.inr ⟨htok, ys, hys, htoks⟩
-    · have htok' : var.tokens = false := by simpa using htok
-      simp only [htok', Bool.false_eq_true, if_false] at hx
-      refine Or.inl ⟨htok', ?_⟩
-      split at hx
-      · exact Or.inl (by assumption)
-      · rename_i p hp
-        simp only [Bool.and_eq_true] at hx
-        exact Or.inr ⟨p, hp, hx.1, hx.2⟩
-      · cases hx
+  rcases hv with hv | ⟨hany, hmv⟩
+  · simp only [FN.attrVarOK, FN.varBase, Bool.and_eq_true, decide_eq_true_eq, Bool.not_eq_true',
+      Bool.or_eq_true] at hv
+    obtain ⟨⟨⟨⟨⟨⟨⟨⟨⟨⟨hA, _⟩, _⟩, _⟩, _⟩, hfind⟩, hnil⟩, hty⟩, htypes⟩, hfix⟩, hfa⟩ := hv
+    obtain ⟨f, hf, _, _⟩ := fieldAgreesN_iff.1 hfa
+    have hnm := isAttributes_false_of_attr hA
+    unfold FN.attrValOK at hx
+    simp only [hnm, Bool.false_eq_true, if_false, Bool.and_eq_true, Bool.or_eq_true] at hx
+    obtain ⟨hfx, hx⟩ := hx
+    refine AttrFactsN.attr ⟨hA, hfind, hnil, hty, by rw [hnames]; exact mem_names_of_find hf, ?_, ?_⟩
+    · cases hpt : primTypeOf var with
+      | none => simp [hpt] at hx
+      | some t =>
+        obtain ⟨htp, _⟩ := primTypeOf_some hpt
+        refine ⟨t, htp, ?_⟩
+        simp only [hpt] at hx
+        by_cases htok : var.tokens = true
+        · simp only [htok, if_true] at hx
+          obtain ⟨ys, hys, htoks⟩ := toks_of hx
+          exact Or.inr ⟨htok, ys, hys, htoks⟩
+        · have htok' : var.tokens = false := by simpa using htok
+          simp only [htok', Bool.false_eq_true, if_false] at hx
+          refine Or.inl ⟨htok', ?_⟩
+          split at hx
+          · exact Or.inl (by assumption)
+          · rename_i p hp
+            simp only [Bool.and_eq_true] at hx
+            exact Or.inr ⟨p, hp, hx.1, hx.2⟩
+          · cases hx
+    · intro hi
+      have hfo : fixedOK var = true := by
+        rcases hfix with h | h
+        · rw [hi] at h; cases h
+        · exact h
+      have hfv : fixedVal var (look fields var.name) = true := by
+        rcases hfx with h | h
+        · rw [hi] at h; cases h
+        · exact h
+      simp only [fixedOK, Bool.and_eq_true, Bool.not_eq_true'] at hfo
+      exact ⟨hfo.1.1.1.1.1, fixedVal_iff.1 hfv⟩
+  · simp only [mapVarOK, Bool.and_eq_true] at hmv
+    obtain ⟨⟨hmap, hinit⟩, hfield⟩ := hmv
+    have hmem : var.name ∈ fields.map (·.1) := by
+      cases hf : ci.fields.find? (·.name = var.name) with
+      | none => simp [hf] at hfield
+      | some f => rw [hnames]; exact mem_names_of_find hf
+    unfold FN.attrValOK at hx
+    simp only [hmap, if_true] at hx
+    cases hlook : look fields var.name with
+    | attrs kv =>
+      rw [hlook] at hx
+      simp only [mapValOK, Bool.and_eq_true, decide_eq_true_eq, List.all_eq_true] at hx
+      refine AttrFactsN.amap ⟨hmap, hinit, hany, hmem, ⟨kv, hlook⟩, by simpa [mapEntries, hlook] using hx.1, ?_⟩
+      intro kw hkw
+      simp only [mapEntries, hlook] at hkw
+      obtain ⟨⟨⟨⟨h1, h2⟩, h3⟩, h4⟩, h5⟩ := hx.2 kw hkw
+      exact ⟨h1, h2, h3, h4, h5⟩
+    | _ => rw [hlook] at hx; simp [mapValOK] at hx
 
 /-- which of the two kinds of element var, with its default -/
 inductive ElemKindN (Γ : Ctx) (m : XmlMeta) (var : XmlVar) : Prop
@@ -111,16 +178,16 @@ inductive ElemKindN (Γ : Ctx) (m : XmlMeta) (var : XmlVar) : Prop
 theorem elemFactsN_of {ft : Feat} {Γ : Ctx} {m : XmlMeta} {ci : ClassInfo} {var : XmlVar}
     (MF : MetaFactsN ft Γ ci m) (hmem : var ∈ m.elementVars)
     (hv : FN.elemVarOK ft Γ m ci var = true) :
-    ElemFactsN m var ∧ ElemKindN Γ m var ∧ fieldAgrees ci var = true ∧
-      (var.nillable = true → ft.nillable = true) := by
+    ElemFactsN m var ∧ ElemKindN Γ m var ∧ fieldAgreesN ci var = true ∧
+      (var.nillable = true → ft.nillable = true) ∧ (var.init = true ∨ fixedOK var = true) := by
   simp only [FN.elemVarOK, FN.varBase, Bool.and_eq_true, decide_eq_true_eq, Bool.not_eq_true',
     VarCore.isElement, Option.isNone_iff_eq_none, Bool.or_eq_true] at hv
-  obtain ⟨⟨⟨⟨⟨⟨hA, hB⟩, hidx⟩, hfind⟩, hwrap⟩, hkind⟩, hfa⟩ := hv
-  obtain ⟨⟨⟨⟨⟨⟨⟨⟨hinit, hmixed⟩, hany⟩, hunion⟩, hq⟩, hseq⟩, hnl⟩, _⟩, _⟩ := hB
+  obtain ⟨⟨⟨⟨⟨⟨⟨hA, hB⟩, hidx⟩, hfind⟩, hwrap⟩, hkind⟩, hfix⟩, hfa⟩ := hv
+  obtain ⟨⟨⟨⟨⟨⟨⟨⟨_, hmixed⟩, hany⟩, hunion⟩, hq⟩, hseq⟩, hnl⟩, _⟩, _⟩ := hB
   have hkey : var.qname ∈ m.elements.map (·.1) := by
     have := List.mem_of_find?_eq_some hfind
     exact List.mem_map.2 ⟨_, this, rfl⟩
-  refine ⟨⟨hA, hinit, hmixed, hany, hunion, ?_, hidx, hfind, ?_, ?_⟩, ?_, hfa, ?_⟩
+  refine ⟨⟨hA, hmixed, hany, hunion, ?_, hidx, hfind, ?_, ?_⟩, ?_, hfa, ?_, hfix⟩
   · intro h; simp [h] at hq
   · -- the qname of an element var is not the name of a wrapper
     cases hb : m.wrappers.any (·.1 = var.qname) with
@@ -143,9 +210,9 @@ theorem elemFactsN_of {ft : Feat} {Γ : Ctx} {m : XmlMeta} {ci : ClassInfo} {var
           subst hv
           have htv := this.2
           simp only [FN.textVarOK, Bool.and_eq_true, Option.isNone_iff_eq_none] at htv
-          rw [htv.1.1.1.2] at hvw; cases hvw
+          rw [htv.1.1.1.1.2] at hvw; cases hvw
       simp only [FN.elemVarOK, Bool.and_eq_true] at hvok
-      have hw2 := hvok.1.1.2
+      have hw2 := hvok.1.1.1.2
       rw [hvw] at hw2
       simp only [Bool.and_eq_true, List.all_eq_true, decide_eq_true_eq] at hw2
       obtain ⟨qe, hqe, hqeq⟩ := List.mem_map.1 hkey
